@@ -1,3 +1,3 @@
 SPECIFICATION Spec
-INVARIANTS K05_TreeIsOverlap K11_Interleave K11_ZoomAgrees K12_BandZK K12_Consistent K12_ImplKeyToZInBand K17_CellIsHalving K17_InRange
+INVARIANTS K05_TreeIsOverlap K11_Interleave K11_ZoomAgrees K12_BandZK K12_Consistent K12_ImplKeyToZInBand K17_CellIsHalving K17_ByHeight K17_InRange
 CHECK_DEADLOCK FALSE
